@@ -93,6 +93,8 @@ def base_cids():
     checks = [["c", "id must be unique", "IsUnique", "id"], ["c", "few kinds", "DistinctCount", "kind < 3"]]
     yield "delimited-all", [["d", "format", "delimited"], ["d", "header", "1"], ["d", "item delimiter", ";"], ["d", "encoding", "utf-8"]] + fields_any + checks
     yield "delimited-min", [["d", "format", "delimited"], ["f", "id"]]
+    # names that are ordinary identifiers (soft keywords, builtins, dunder-free underscores) are valid field names
+    yield "ordinary-names", [["d", "format", "delimited"], ["f", "type"], ["f", "match"], ["f", "case"], ["f", "print"], ["f", "list"], ["f", "a_1"], ["f", "Z"], ["c", "u", "IsUnique", "type, match"]]
     yield "csv", [["d", "format", "csv"], ["f", "id", "", "", "", "Integer"], ["f", "kind"], ["c", "u", "IsUnique", "id, kind"]]
     yield "fixed", [["d", "format", "fixed"], ["d", "line delimiter", "lf"], ["f", "id", "00017", "", "5", "Integer", ""], ["f", "name", "abc", "x", "3", "Text", ""], ["f", "amount", "", "", "8", "Decimal", ""], ["c", "u", "IsUnique", "id"]]
     yield "excel", [["d", "format", "excel"], ["d", "sheet", "2"]] + fields_any[:4] + checks[:1]
@@ -567,3 +569,26 @@ def unit_cid_init():
                 "assumptions": ["Cid.read / rowio.auto_rows are used through their verified contracts; _create_name_to_class_map is abstract here (bounded: C20.protocol resolves real plug-in classes)"]}
     def make(ctx): return [mk(False), mk(True)]
     return ProofUnit("interface.Cid.__init__", "Cid.__init__: empty definition, class maps from the two base classes, optional read from a path", ["C09", "C08", "C17", "C20", "C10"], make, None)
+
+
+def unit_fnl_follows_cid():
+    """bounded: field_names_and_lengths describes the CID as it is now (nothing remembered from an earlier call with the same Cid object)"""
+    def run(ctx):
+        import io
+        from cutplace import interface, validio, errors
+        def check(widths):
+            cid = interface.Cid(); cid.read("c", [["d", "format", "fixed"], ["d", "line delimiter", "lf"]] + [["f", "f%d" % i, "", "", str(w)] for i, w in enumerate(widths[:1])])
+            seen = [list(interface.field_names_and_lengths(cid))]
+            for i, w in enumerate(widths[1:], 1):
+                cid.add_field_format_row(["f%d" % i, "", "", str(w)])
+                seen.append(list(interface.field_names_and_lengths(cid)))
+            want = [[("f%d" % i, w) for i, w in enumerate(widths[:k])] for k in range(1, len(widths) + 1)]
+            if seen != want: return {"expected": want, "observed": seen}
+            text = "".join(chr(97 + i) * w for i, w in enumerate(widths)) + "\n"
+            got = list(validio.rows(cid, io.StringIO(text)))
+            exp = [[chr(97 + i) * w for i, w in enumerate(widths)]]
+            return None if got == exp else {"expected": exp, "observed": got}
+        cases = [(2,), (2, 3), (1, 1, 4), (3, 2, 1, 2)]
+        return [sweep("C13/fnl/field_names_and_lengths follows the Cid as fields are added", cases, check, "bounded", "4 fixed CIDs grown field by field, widths re-read after every addition, then one record read",
+                      describe=lambda c: {"widths": list(c)}, function="interface.field_names_and_lengths", unit="C13.fnl-follows-cid")]
+    return NativeUnit("C13.fnl-follows-cid", "bounded: field_names_and_lengths reflects the current fields of the Cid object", ["C13", "C08"], run, kind="bounded")
